@@ -226,6 +226,71 @@ class _SelectModule:
         return out_r, out_w, []
 
 
+class FakePoller:
+    """select.poll() object over the fake kernel.  poll() reports, in registration
+    order, POLLIN / POLLOUT for registered descriptors that are ready and asked for
+    it (never POLLPRI; POLLERR / POLLHUP / POLLNVAL only when injected through
+    kernel.poll_inject[fd]); unknown descriptors go to a real poll object."""
+
+    def __init__(self, kernel, module):
+        self.kernel = kernel
+        self.module = module
+        self.registered = {}   # fd -> flags, insertion ordered
+
+    def register(self, fd, flags=_real_select.POLLIN | _real_select.POLLPRI | _real_select.POLLOUT):
+        self.registered[fd] = flags
+        self.module.registrations.append((fd, flags))
+
+    def modify(self, fd, flags):
+        self.registered[fd] = flags
+
+    def unregister(self, fd):
+        del self.registered[fd]
+
+    def poll(self, timeout=None):
+        k = self.kernel
+        real = _real_select.poll()
+        nreal = 0
+        for fd, flags in self.registered.items():
+            if fd not in k.objects:
+                real.register(fd, flags)
+                nreal += 1
+        real_ev = dict(real.poll(0)) if nreal else {}
+        out = []
+        for fd, flags in self.registered.items():
+            if fd in k.objects:
+                o = k.objects[fd]
+                ev = 0
+                if flags & _real_select.POLLIN and o.read_ready():
+                    ev |= _real_select.POLLIN
+                if flags & _real_select.POLLOUT and o.write_ready():
+                    ev |= _real_select.POLLOUT
+                ev |= k.poll_inject.get(fd, 0)
+            else:
+                ev = real_ev.get(fd, 0)
+            if ev:
+                out.append((fd, ev))
+        return out
+
+
+class _SelectPollModule(_SelectModule):
+    """as _SelectModule, with select.poll() (so wasyncore.loop(use_poll=True) uses poll2)"""
+
+    def __init__(self, kernel):
+        _SelectModule.__init__(self, kernel)
+        self.registrations = []   # (fd, flags) of every register() call
+
+    def poll(self):
+        if len(self.registrations) > 256:
+            del self.registrations[:128]
+        return FakePoller(self._kernel, self)
+
+    def __getattr__(self, name):
+        if name.startswith("POLL"):
+            return getattr(_real_select, name)
+        raise AttributeError(name)
+
+
 class FakeKernel:
     def __init__(self, first_fd=1000, conn_room=65536, sndbuf_opt=65536):
         self.next_fd = first_fd
@@ -235,6 +300,7 @@ class FakeKernel:
         self.sndbuf_opt = sndbuf_opt
         self.closed_fds = []
         self.next_listener_fd = 100
+        self.poll_inject = {}  # fd -> extra revents reported by FakePoller
 
     def new_listener(self):
         fd = self.next_listener_fd
@@ -259,5 +325,5 @@ class FakeKernel:
     def socket_module(self):
         return _SocketModule(self)
 
-    def select_module(self):
-        return _SelectModule(self)
+    def select_module(self, with_poll=False):
+        return _SelectPollModule(self) if with_poll else _SelectModule(self)
